@@ -431,5 +431,41 @@ Definition nested_ok (xs : list xstmt) : bool :=
   forallb (fun s => stack_safe [] [] (outer_run xs 1%N (fst s) (snd s))) nested_shapes.
 Definition exec_range_defer_first := [XDefer; XBody].   (* the slot written BEFORE the user function runs *)
 
+
 Definition exec_range_old := [XBody; XFreeSelf].     (* as found *)
 Definition exec_range_fixed := [XBody; XDefer].      (* repaired: reclaim after the scheduler's decrement *)
+
+(* ------------------------------------------------ the reclaim slot at thread exit and AFTER it
+   The per-thread slot holds the task this thread finished last; it is reclaimed by the next finish on the same thread or at
+   thread exit (TLS destructors).  At PROCESS exit the main thread's TLS destructors run BEFORE the static destructor of the
+   scheduler, which then drains the queued tasks on the main thread: ExecuteRange writes the slot again, after the slot's own
+   thread-exit destruction.  A plain pointer (trivially destructible) is still a valid empty slot then; an owning object
+   (unique_ptr) has been destroyed: using it is a use of a dead object (double delete of the task it held). *)
+Inductive slotkind := SlotRawPointer | SlotOwningObject | SlotUnknown.
+Definition slot_usable_after_tls_destruction (k : slotkind) : bool := match k with SlotRawPointer => true | _ => false end.
+(* tasks run by the thread after its TLS destructors: like thread_events with the repaired ExecuteRange, but nothing frees the
+   last one any more (it stays reachable from the slot until the process ends) *)
+Fixpoint drain_events (pending : option N) (ts : list N) : list ev :=
+  match ts with
+  | [] => []
+  | t :: r => (MReadRange, t) :: (MBody, t) :: (match pending with Some q => [(MFree, q)] | None => [] end) ++ (MRmwDec, t) :: drain_events (Some t) r
+  end.
+(* before: tasks run before thread exit; TLS destruction frees the slot; after: tasks drained afterwards. None: the slot is dead *)
+Definition exit_history (k : slotkind) (pending : option N) (before after : list N) : option (list ev) :=
+  match after with
+  | [] => Some (thread_events exec_range_fixed true pending before)
+  | _ => if slot_usable_after_tls_destruction k
+         then Some (thread_events exec_range_fixed true pending before ++ drain_events None after) else None
+  end.
+Definition exit_history_ok (k : slotkind) (pending : option N) (before after : list N) : bool :=
+  match exit_history k pending before after with
+  | Some tr => no_uaf [] tr &&
+               forallb (fun t => Nat.eqb (bodies t tr) 1) (before ++ after) &&
+               forallb (fun t => Nat.eqb (frees t tr) 1) (before ++ removelast after) &&
+               forallb (fun t => Nat.eqb (frees t tr) 0) (match after with [] => [] | _ => [last after 0%N] end)
+  | None => false
+  end.
+Definition exit_shapes : list (option N * list N * list N) :=
+  [(None, [], [1; 2; 3]); (None, [1; 2], [3; 4; 5]); (Some 9, [1], [2]); (None, [1; 2; 3], []); (Some 9, [], []); (None, [1], [2; 3; 4; 5; 6])]%N.
+Definition exit_shapes_ok (k : slotkind) : bool := forallb (fun s => exit_history_ok k (fst (fst s)) (snd (fst s)) (snd s)) exit_shapes.
+
